@@ -691,6 +691,10 @@ def decode_from_hdf5(value: Any) -> Any:
             return {}
         return value
 
+    if isinstance(value, np.generic):
+        # Scalar datasets are read as NumPy scalars
+        return value.item()
+
     if isinstance(value, np.ndarray):
         # Try to collapse 0-D arrays into scalars
         if value.shape == ():
